@@ -687,10 +687,67 @@ var stringHints = map[string]string{
 	"YamlRenameObject.from":           "pkg.A",
 	"YamlRetypeField.field":           "pkg.A.f",
 	"YamlVeneers.package":             "pkg",
+	"AstType.kind":                    "scalar",
+	"AstScalarType.scalar_kind":       "string",
+	"AstTypeConstraint.op":            ">",
 	"YamlByNamesSelector.object":      "Obj",
 }
 
-func minimal(n pnode, hint string, atEnd bool) any {
+// A type written in a configuration file must be well-formed for the loaders
+// (internal/yaml/types.go validateType): known `kind`, the payload matching the
+// kind present, enums with scalar-typed valued members, unions with branches,
+// constraints with arguments. None of this is oracle material; it only makes
+// the documents load.
+func wfType() *OMap {
+	return newOMap("kind", "scalar", "scalar", newOMap("scalar_kind", "string"))
+}
+
+// payload key of ast.Type -> the `kind` that goes with it
+var typePayloadKind = map[string]string{
+	"scalar": "scalar", "array": "array", "map": "map", "struct": "struct", "enum": "enum", "ref": "ref",
+	"constantreference": "constant_ref", "disjunction": "disjunction", "intersection": "intersection",
+	"composable_slot": "composable_slot",
+}
+
+// typeContext: keys a definition of the type language needs, given the key the
+// path continues through (next, "" at the end of the path).
+func typeContext(def, next string) []any {
+	switch def {
+	case "AstType":
+		if k, ok := typePayloadKind[next]; ok {
+			return []any{"kind", k} // the payload itself is set by the path step
+		}
+		return []any{"kind", "scalar", "scalar", newOMap("scalar_kind", "string")}
+	case "AstScalarType":
+		return []any{"scalar_kind", "string"}
+	case "AstArrayType":
+		return []any{"value_type", wfType()}
+	case "AstMapType":
+		return []any{"indextype", wfType(), "valuetype", wfType()}
+	case "AstEnumType":
+		return []any{"values", &List{items: []any{newOMap("type", wfType(), "name", "A", "value", "a")}}}
+	case "AstEnumValue":
+		return []any{"type", wfType(), "name", "A", "value", "a"}
+	case "AstDisjunctionType":
+		return []any{"branches", &List{items: []any{wfType()}}}
+	case "AstTypeConstraint":
+		return []any{"op", ">", "args", &List{items: []any{1}}}
+	case "AstStructField":
+		return []any{"name", "f", "type", wfType()}
+	case "AstArgument":
+		return []any{"name", "arg", "type", wfType()}
+	case "AstTypedConstant":
+		return []any{"type", wfType(), "value", "c"}
+	case "YamlAddObject", "YamlRetypeObject", "YamlRetypeField":
+		return []any{"as", wfType()}
+	}
+	return nil
+}
+
+// lists the loaders refuse when empty
+var nonEmptyLists = map[string]bool{"AstEnumType.values": true, "AstDisjunctionType.branches": true, "AstTypeConstraint.args": true}
+
+func minimal(n pnode, hint string, atEnd bool, next string) any {
 	switch n.kind() {
 	case kObj:
 		m := newOMap()
@@ -706,6 +763,10 @@ func minimal(n pnode, hint string, atEnd bool) any {
 		for i := 0; i+1 < len(kv); i += 2 {
 			m.Set(kv[i].(string), kv[i+1])
 		}
+		kv = typeContext(d, next)
+		for i := 0; i+1 < len(kv); i += 2 {
+			m.Set(kv[i].(string), kv[i+1])
+		}
 		if atEnd {
 			kv = defaultAction(d)
 			for i := 0; i+1 < len(kv); i += 2 {
@@ -716,6 +777,9 @@ func minimal(n pnode, hint string, atEnd bool) any {
 	case kMap:
 		return newOMap()
 	case kArr:
+		if nonEmptyLists[hint] {
+			return &List{items: []any{minimal(n.elem(), hint, false, "")}}
+		}
 		return &List{}
 	case kStr:
 		if h, ok := stringHints[hint]; ok {
@@ -737,7 +801,13 @@ func minimal(n pnode, hint string, atEnd bool) any {
 
 // build returns the minimal document reaching p and its end value.
 func build(p *kpath) (root any, end any) {
-	root = minimal(p.nodes[0], "", len(p.steps) == 0)
+	nextKey := func(i int) string { // key step following node i (through list/map steps: none)
+		if i < len(p.steps) && p.steps[i].T == 'k' {
+			return p.steps[i].K
+		}
+		return ""
+	}
+	root = minimal(p.nodes[0], "", len(p.steps) == 0, nextKey(0))
 	cur := root
 	hint := ""
 	for i, st := range p.steps {
@@ -747,18 +817,22 @@ func build(p *kpath) (root any, end any) {
 		switch st.T {
 		case 'k':
 			hint = p.nodes[i].def() + "." + st.K
-			cv = minimal(child, hint, last)
+			cv = minimal(child, hint, last, nextKey(i+1))
 			cur.(*OMap).Set(st.K, cv)
 		case 'i':
-			cv = minimal(child, hint, last)
+			cv = minimal(child, hint, last, nextKey(i+1))
 			l := cur.(*List)
-			l.items = append(l.items, cv)
+			if len(l.items) > 0 { // a list that must not be empty was seeded with one item: the path goes through it
+				l.items[len(l.items)-1] = cv
+			} else {
+				l.items = append(l.items, cv)
+			}
 		case 'm':
 			mk, ok := stringHints[hint+"{}"]
 			if !ok {
 				mk = "k1"
 			}
-			cv = minimal(child, hint, last)
+			cv = minimal(child, hint, last, nextKey(i+1))
 			cur.(*OMap).Set(mk, cv)
 		}
 		cur = cv
@@ -1049,7 +1123,7 @@ func buildCases(fks []*fileKind) []*docCase {
 							}
 							seen[alias] = true
 							d, end := build(p)
-							end.(*OMap).Set(alias, minimal(pnode{g: e.g.Props[k]}, e.def()+"."+k, true))
+							end.(*OMap).Set(alias, minimal(pnode{g: e.g.Props[k]}, e.def()+"."+k, true, ""))
 							c := common("alias", fmt.Sprintf("alias:%s:%s+%s", fk.Name, ps, alias))
 							c.YAML, c.Base, c.Key = toYAML(d), baseY, alias
 							c.size = len(p.steps)*8 + 6
@@ -1276,6 +1350,13 @@ func judgeNoAction(c *docCase) []verdict {
 	return nil
 }
 
+const valueLevelMark = "value-level\x00"
+
+// Positions that cannot be instantiated so that the loader accepts them: the
+// type of an enum member must be a scalar, so the non-scalar payloads of
+// enum.values[].type only exist in documents the loader refuses.
+var expectedUnloadable = regexp.MustCompile(`enum\.values\[\]\.type\.(array|map|struct|enum|ref|constantreference|disjunction|intersection|composable_slot)$`)
+
 func judgePath(c *docCase) (v []verdict, typeLevel string, precondition string) {
 	switch {
 	case c.L && c.S:
@@ -1287,7 +1368,9 @@ func judgePath(c *docCase) (v []verdict, typeLevel string, precondition string) 
 			typeLevel = fmt.Sprintf("%s:%s schema accepts, loader: %s", c.FK, c.Path, c.lmsg)
 		case "panic":
 		default:
-			precondition = fmt.Sprintf("%s: loader rejects a path document for a value-level reason: %s\n%s", c.ID, c.lmsg, c.YAML)
+			// schema accepts, loader rejects for a value-level reason: outside
+			// the key-level claim; the caller counts it as blocked
+			precondition = valueLevelMark + fmt.Sprintf("%s: %s\n%s", c.ID, c.lmsg, c.YAML)
 		}
 	case c.L && !c.S:
 		switch c.sclass {
@@ -1369,7 +1452,8 @@ func run(r *vx.Run) int {
 	type flags struct{ loaderOK, schemaOK bool }
 	ok := map[string]flags{} // "<fk>:<path>" of path documents
 	var preconditions, typeLevel, validatorDisagreements, panics []string
-	var blockedLoader, blockedSchema int
+	var blockedLoader, blockedSchema, valueBlockedExpected, pathDocs int
+	var valueBlocked []string
 	failingPerKind := map[string]int{}
 	clauseReached := map[string]int{}
 	fail := func(c *docCase, v verdict) {
@@ -1394,6 +1478,7 @@ func run(r *vx.Run) int {
 			}
 			switch c.Family {
 			case "path":
+				pathDocs++
 				par := flags{true, true}
 				if c.p != nil && len(c.p.steps) > 0 {
 					par = ok[c.FK+":"+c.p.parent()]
@@ -1421,7 +1506,14 @@ func run(r *vx.Run) int {
 				if tl != "" {
 					typeLevel = append(typeLevel, tl)
 				}
-				if pre != "" {
+				if strings.HasPrefix(pre, valueLevelMark) {
+					pre = strings.TrimPrefix(pre, valueLevelMark)
+					if expectedUnloadable.MatchString(c.Path) {
+						valueBlockedExpected++
+					} else {
+						valueBlocked = append(valueBlocked, pre)
+					}
+				} else if pre != "" {
 					preconditions = append(preconditions, pre)
 				}
 			case "inject", "alias", "free", "merge":
@@ -1460,6 +1552,15 @@ func run(r *vx.Run) int {
 			preconditions = preconditions[:8]
 		}
 		fatalf("%d template precondition failure(s) (documents that must load do not; value hints of the harness need updating):\n%s", n, strings.Join(preconditions, "\n"))
+	}
+	// Documents the schema accepts and the loader refuses for a value-level
+	// reason are outside the key-level claim: they (and the paths below them)
+	// are counted as blocked. More than a handful means the templates are out
+	// of date and the run would be vacuous: harness error, never a violation.
+	sort.Strings(valueBlocked)
+	if limit := 5 + pathDocs/50; len(valueBlocked) > limit {
+		n := len(valueBlocked)
+		fatalf("%d path documents (limit %d) are rejected by the loader for value-level reasons; the templates of the harness need updating:\n%s", n, limit, strings.Join(valueBlocked[:8], "\n"))
 	}
 
 	// evidence
@@ -1575,6 +1676,8 @@ func run(r *vx.Run) int {
 		"oracle_clause_reached":               clauseReached,
 		"blocked_by_failing_prefix_loader":    blockedLoader,
 		"blocked_by_failing_prefix_schema":    blockedSchema,
+		"value_level_blocked_expected":        valueBlockedExpected,
+		"value_level_blocked_unexpected":      cap10(valueBlocked),
 		"failing_cases_per_kind":              failingPerKind,
 		"type_level_disagreements_not_judged": cap10(typeLevel),
 		"loader_panics_not_judged_here":       cap10(panics),
